@@ -9,7 +9,7 @@
 (* is "unpinned": any BLOC outcome is accepted, but every later dump must   *)
 (* still show uniform tables and well-formed tuples.                        *)
 (***************************************************************************)
-EXTENDS Bloc, Json, IOUtils
+EXTENDS Bloc, Json, IOUtils, SequencesExt
 Env(n, d) == IF n \in DOMAIN IOEnv THEN IOEnv[n] ELSE d
 H == atoi(Env("GEN_DEPTH", "1"))
 
@@ -24,9 +24,9 @@ Init0(k) ==
 
 \* element arguments: <<expression, pinned?>>
 Args(k) ==
-  CASE k = "ti" -> << I(5), D(4), Str("x"), Call("int", <<>>), Call("num", <<>>), NullC, Call("str", <<>>), Call("tab", <<I(2), I(7)>>), Call("tab", <<I(1), Str("s")>>), Call("tab", <<>>), B(TRUE) >>
+  CASE k = "ti" -> << I(5), D(4), Str("x"), Call("int", <<>>), Call("num", <<>>), NullC, Call("str", <<>>), Mem(Call("tab", <<I(1), I(7)>>), "concat", <<I(8)>>), Call("tab", <<I(1), Str("s")>>), Call("tab", <<>>), B(TRUE) >>
     [] k = "td" -> << D(5), I(4), Str("x"), Call("num", <<>>), Call("int", <<>>), NullC, Call("tab", <<I(2), D(7)>>), Call("tab", <<I(1), I(1)>>) >>
-    [] k = "ts" -> << Str("z"), I(5), Call("str", <<>>), NullC, Call("int", <<>>), Call("tab", <<I(2), Str("q")>>), Call("tab", <<I(1), I(1)>>) >>
+    [] k = "ts" -> << Str("z"), I(5), Call("str", <<>>), NullC, Call("int", <<>>), Mem(Call("tab", <<I(1), Str("q")>>), "concat", <<Str("r")>>), Call("tab", <<I(1), I(1)>>) >>
     [] k = "tu" -> << Call("tup", <<I(2), Str("b")>>), Call("tup", <<Str("b"), I(2)>>), Call("tup", <<I(2)>>), Call("tup", <<I(2), Str("b"), I(3)>>),
                       Call("tup", <<Call("int", <<>>), Call("str", <<>>)>>), Call("tup", <<>>), NullC, I(5),
                       Call("tup", <<D(4), Str("b")>>), Call("tab", <<I(1), Call("tup", <<I(9), Str("n")>>)>>), Call("tab", <<I(1), Call("tup", <<Str("n"), I(9)>>)>>) >>
@@ -36,26 +36,30 @@ Args(k) ==
     [] k = "raw" -> << I(66), Call("raw", <<I(2), I(67)>>), I(300), I(-1), I(256), Call("int", <<>>), NullC, Str("xy"), D(3) >>
     [] k = "tup" -> << I(9), D(4), Str("z"), Call("int", <<>>), Call("num", <<>>), Call("str", <<>>), NullC, B(TRUE), D(5) >>
 
+\* every argument also through an opaque route (a user function returning its parameter): the compile-time checks
+\* cannot decide, so the run-time checks are reached
+Opaque(e) == UCall("FO", <<e>>)
+ArgsX(k) == Args(k) \o [j \in DOMAIN Args(k) |-> Opaque(Args(k)[j])]
+
 Positions == << I(-1), I(0), I(1), I(2), I(3), I(4), RawInt("4294967297", 2000000001), RawInt("4294967296", 2000000000),
                 RawInt("99999999999", 2000000002), RawInt("9223372036854775807", 2000000003), Call("int", <<>>), NullC, D(2), Str("1") >>
 
 \* helper: enumerate a finite set of pairs as a sequence of statements (order irrelevant)
-RECURSIVE SetToSeqP(_)
-SetToSeqP(S) == IF S = {} THEN <<>> ELSE LET x == CHOOSE x \in S : TRUE IN <<x>> \o SetToSeqP(S \ {x})
-UNION2(S) == [j \in 1..Cardinality(S) |-> LET pr == SetToSeqP(S)[j] IN Do(SetAt(X, pr[1], Args("tup")[pr[2]]))]
-PosArg(k, m) == LET S == {<<j, a>> : j \in DOMAIN Positions, a \in DOMAIN Args(k)}
+SetToSeqP(S) == SetToSeq(S)
+UNION2(S) == LET Q == SetToSeqP(S) IN [j \in 1..Len(Q) |-> Do(SetAt(X, Q[j][1], ArgsX("tup")[Q[j][2]]))]
+PosArg(k, m) == LET S == {<<j, a>> : j \in DOMAIN Positions, a \in DOMAIN ArgsX(k)}
                     Q == SetToSeqP(S)
-                IN  [j \in 1..Len(Q) |-> Do(Mem(X, m, <<Positions[Q[j][1]], Args(k)[Q[j][2]]>>))]
+                IN  [j \in 1..Len(Q) |-> Do(Mem(X, m, <<Positions[Q[j][1]], ArgsX(k)[Q[j][2]]>>))]
 
 Ops(k) ==
   IF k = "tup" THEN
        << PrintS(<<Mem(X, "count", <<>>)>>) >>
        \o [j \in 1..5 |-> Let("Y", Item(X, j - 1))]
-       \o UNION2({<<j, a>> : j \in 0..4, a \in DOMAIN Args(k)})
+       \o UNION2({<<j, a>> : j \in 0..4, a \in DOMAIN ArgsX(k)})
   ELSE << PrintS(<<Mem(X, "count", <<>>)>>) >>
        \o [j \in DOMAIN Positions |-> Let("Y", Mem(X, "at", <<Positions[j]>>))]
        \o [j \in DOMAIN Positions |-> Do(Mem(X, "delete", <<Positions[j]>>))]
-       \o [j \in DOMAIN Args(k) |-> Do(Mem(X, "concat", <<Args(k)[j]>>))]
+       \o [j \in DOMAIN ArgsX(k) |-> Do(Mem(X, "concat", <<ArgsX(k)[j]>>))]
        \o PosArg(k, "put") \o PosArg(k, "insert")
 
 \* reduced pool for pairs: in-range positions, every argument kind
@@ -82,16 +86,31 @@ Structs == << <<D(3), B(TRUE), Str("s")>>, <<I(1), II, D(5), B(FALSE)>>, <<I(1),
 StructProgs == { << Let("X", Call("tab", <<I(1), Call("tup", Structs[i])>>)), Do(Mem(X, m, (IF m = "concat" THEN <<>> ELSE <<I(0)>>) \o <<Call("tup", Structs[j])>>)) >>
                    : i \in DOMAIN Structs, j \in DOMAIN Structs, m \in {"concat", "put", "insert"} }
 
+Pre(k) == <<Func("FO", <<"P">>, <<Return(V("P"))>>), Let("X", Init0(k))>>
+\* nested traversal of the same table: the lock must survive the inner loop
+NestLock(k) ==
+  IF k \in {"ti", "ts"} THEN
+    { <<Forall("E", X, "auto", <<Forall("F", X, "auto", <<Nop>>), Do(Mem(X, "concat", <<Args(k)[1]>>))>>)>>,
+      <<Forall("E", X, "auto", <<Forall("F", X, "auto", <<Nop>>), Do(Mem(X, "delete", <<I(0)>>))>>)>>,
+      <<Forall("E", X, "auto", <<Forall("F", X, "auto", <<Nop>>), Let("X", Init0(k))>>)>>,
+      <<Forall("E", X, "auto", <<Forall("F", X, "auto", <<Do(Mem(X, "concat", <<Args(k)[1]>>))>>)>>)>>,
+      <<Forall("E", X, "auto", <<Forall("F", X, "auto", <<PutS(<<V("F")>>)>>), PutS(<<V("E")>>)>>), Do(Mem(X, "concat", <<Args(k)[1]>>)), Let("E", B(TRUE)), Let("F", B(TRUE))>> }
+  ELSE IF k = "tt" THEN
+    { <<Forall("E", X, "auto", <<Forall("F", Mem(X, "at", <<I(0)>>), "auto", <<Nop>>), Do(Mem(X, "delete", <<I(0)>>))>>)>>,
+      <<Forall("E", X, "auto", <<Forall("F", V("E"), "auto", <<PutS(<<V("F")>>)>>)>>), Do(Mem(X, "delete", <<I(0)>>))>> }
+  ELSE {}
+
 VARIABLE p
-Init == p \in UNION {{[k |-> k, ops |-> <<Ops(k)[j]>>] : j \in DOMAIN Ops(k)} : k \in Kinds}
-              \cup (IF H >= 2 THEN UNION {{[k |-> k, ops |-> <<Reduced(k)[i], Reduced(k)[j]>>] : i \in DOMAIN Reduced(k), j \in DOMAIN Reduced(k)} : k \in Kinds} ELSE {})
+Init == p \in UNION {LET ops == TLCEval(Ops(k)) IN {[k |-> k, ops |-> <<ops[j]>>] : j \in DOMAIN ops} : k \in Kinds}
+              \cup (IF H >= 2 THEN UNION {LET red == TLCEval(Reduced(k)) IN {[k |-> k, ops |-> <<red[i], red[j]>>] : i \in DOMAIN red, j \in DOMAIN red} : k \in Kinds} ELSE {})
               \cup UNION {{[k |-> k, ops |-> <<x[1]>>, lock |-> TRUE] : x \in LockProgs(k)} : k \in Kinds}
+              \cup UNION {{[k |-> k, ops |-> x, lock |-> TRUE] : x \in NestLock(k)} : k \in Kinds}
               \cup {[k |-> "tup", ops |-> x] : x \in RankProgs} \cup {[k |-> "tup", ops |-> x, key |-> "struct"] : x \in StructProgs}
 Next == UNCHANGED p
 ExecStep(prog) == [op |-> "exec", ctx |-> 0, ast |-> prog, text |-> Render(prog), unpinned |-> TRUE]
 Scenario(q) ==
   LET Steps[j \in 0..Len(q.ops)] ==
-        IF j = 0 THEN << [op |-> "exec", ctx |-> 0, ast |-> <<Let("X", Init0(q.k))>>, text |-> Render(<<Let("X", Init0(q.k))>>)], [op |-> "dump", ctx |-> 0] >>
+        IF j = 0 THEN << [op |-> "exec", ctx |-> 0, ast |-> Pre(q.k), text |-> Render(Pre(q.k))], [op |-> "dump", ctx |-> 0] >>
         ELSE Steps[j - 1] \o << ExecStep(<<q.ops[j]>>), [op |-> "dump", ctx |-> 0] >>
   IN [prop |-> "C09", key |-> IF "key" \in DOMAIN q THEN q.key ELSE q.k, steps |-> Steps[Len(q.ops)]]
 Emit == PrintT("@@S " \o ToJson(Scenario(p)))
